@@ -46,6 +46,10 @@ impl Cfg {
     pub fn options(&self, path: &Path) -> LsmtkOptions {
         let mut argv: Vec<String> = vec!["--path".into(), path.to_string_lossy().to_string()];
         for (k, v) in self.args.iter() {
+            if k.starts_with("verif-") {
+                // harness-only settings (e.g. the value salt)
+                continue;
+            }
             argv.push(format!("--{k}"));
             argv.push(v.clone());
         }
@@ -176,6 +180,8 @@ pub enum Op {
     Batch(usize),
     /// 1.5 KiB value
     PutBig(usize),
+    /// 5 KiB value: larger than the minimum target file size, so it gets an output file of its own
+    PutHuge(usize),
     Flush,
     Compact,
     CompactAll,
@@ -194,6 +200,7 @@ impl Op {
             Op::Del(k) => format!("del:{}", String::from_utf8_lossy(KEYS[*k])),
             Op::Batch(i) => format!("batch:{i}"),
             Op::PutBig(k) => format!("putbig:{}", String::from_utf8_lossy(KEYS[*k])),
+            Op::PutHuge(k) => format!("puthuge:{}", String::from_utf8_lossy(KEYS[*k])),
             Op::Flush => "F".into(),
             Op::Compact => "C".into(),
             Op::CompactAll => "C*".into(),
@@ -222,6 +229,7 @@ impl Op {
                     "put" => Op::Put(key(b)),
                     "del" => Op::Del(key(b)),
                     "putbig" => Op::PutBig(key(b)),
+                    "puthuge" => Op::PutHuge(key(b)),
                     "batch" => Op::Batch(b.parse().unwrap()),
                     "scan" => Op::Scan(b.parse().unwrap()),
                     "walk" => {
@@ -235,7 +243,10 @@ impl Op {
     }
 
     pub fn is_client_write(&self) -> bool {
-        matches!(self, Op::Put(_) | Op::Del(_) | Op::Batch(_) | Op::PutBig(_))
+        matches!(
+            self,
+            Op::Put(_) | Op::Del(_) | Op::Batch(_) | Op::PutBig(_) | Op::PutHuge(_)
+        )
     }
 }
 
@@ -369,9 +380,9 @@ pub struct Store {
     pub mem_entries: Vec<(Vec<u8>, bool)>,
 }
 
-fn big_value(step: usize) -> Vec<u8> {
+fn big_value(step: usize, len: usize) -> Vec<u8> {
     let mut v = format!("big{step}-").into_bytes();
-    while v.len() < 1536 {
+    while v.len() < len {
         v.push(b'A' + (v.len() % 23) as u8);
     }
     v
@@ -417,8 +428,14 @@ impl Store {
         }
     }
 
+    /// Values are unique per step.  A salt changes every value (and with it every SST digest
+    /// and the digest-ordered manifest listing), so that code which depends on digest order is
+    /// driven down both branches.
     pub fn value_for(&self, step: usize) -> Vec<u8> {
-        format!("v{step}").into_bytes()
+        match self.cfg.get("verif-salt") {
+            None | Some("0") => format!("v{step}").into_bytes(),
+            Some(s) => format!("v{step}s{s}").into_bytes(),
+        }
     }
 
     fn flush_step(&mut self) -> Result<bool, String> {
@@ -461,11 +478,11 @@ impl Store {
         let step = self.step;
         let kvs = self.kvs();
         match op {
-            Op::Put(k) | Op::PutBig(k) => {
-                let v = if matches!(op, Op::PutBig(_)) {
-                    big_value(step)
-                } else {
-                    self.value_for(step)
+            Op::Put(k) | Op::PutBig(k) | Op::PutHuge(k) => {
+                let v = match op {
+                    Op::PutBig(_) => big_value(step, 1536),
+                    Op::PutHuge(_) => big_value(step, 5000),
+                    _ => self.value_for(step),
                 };
                 match vcore::catch(|| kvs.put(KEYS[*k], &v)) {
                     Err(p) => StepResult::Err(format!("panic in put: {p}")),
